@@ -22,3 +22,10 @@ func IsMath() bool                         { return false }
 func Symbolic() bool                       { return true }
 func Note(s string)                        {}
 func WithSpare[T any](name string, s []T, maxSpare int) []T { return s }
+
+func Or(a, b bool) bool                        { return a || b }
+func And(a, b bool) bool                       { return a && b }
+func Implies(a, b bool) bool                   { return !a || b }
+func IteInt(c bool, a, b int) int              { return a }
+func IteF(c bool, a, b float64) float64        { return a }
+func IteU64(c bool, a, b uint64) uint64        { return a }
